@@ -53,7 +53,10 @@ def strategy(ctx):
     tunnel = st.one_of(st.none(), st.fixed_dictionaries({
         "host": st.sampled_from(HOSTS), "port": st.sampled_from(PORTS),
         "rewrite": st.one_of(st.none(), st.fixed_dictionaries({"host": st.sampled_from(HOSTS), "port": st.sampled_from(PORTS)})),
-        "eager": st.booleans(), "inner": st.integers(1, 3)}))
+        "eager": st.booleans(), "inner": st.integers(1, 3),
+        # an addon switches the scheme of the k-th request inside the tunnel (same host and port): it must then not be
+        # written to the tunnel's plaintext connection
+        "switch": st.sampled_from([None, None, 0, 0, 1]), "switch_hook": st.sampled_from(["requestheaders", "request"])}))
     return st.fixed_dictionaries({"mode": st.sampled_from(["regular", "regular", "upstream"]),
                                   "reqs": st.lists(req, min_size=2, max_size=8),
                                   "connect_fail": st.lists(st.integers(0, 6), max_size=2, unique=True),
@@ -93,6 +96,9 @@ def check_tunnel(case, ctx):
             hook.flow.request.host = t["rewrite"]["host"]
             hook.flow.request.port = t["rewrite"]["port"]
             dest[:] = [t["rewrite"]["host"], t["rewrite"]["port"]]
+        elif hook.name == t.get("switch_hook", "requestheaders") and t.get("switch") is not None \
+                and getattr(hook, "flow", None) is not None and hook.flow.request.path == "/t%d" % t["switch"]:
+            hook.flow.request.scheme = "https"
         elif hook.name == "next_layer":
             # plain HTTP inside the tunnel
             hook.data.layer = http_layer.HttpLayer(hook.data.context, http_layer.HTTPMode.transparent)
@@ -117,6 +123,12 @@ def check_tunnel(case, ctx):
         return
     ctx.nt(("tunnel", t["host"], t["port"], repr(t["rewrite"]), t["eager"], t["inner"]), "tunnel:" + ("rewritten" if t["rewrite"] else "plain"))
     seen = 0
+    if t.get("switch") is not None:
+        ctx.cls("tunnel: scheme of request %d switched to https by an addon" % t["switch"])
+        for conn in d.servers:
+            if (b"GET /t%d " % t["switch"]) in d.out(conn) and not conn.tls:
+                ctx.fail("tunnel-https-request-on-plaintext-socket:%s" % ("eager" if t["eager"] else "lazy"),
+                         "request /t%d was switched to https but written to the plaintext connection to %r (tls=%r)" % (t["switch"], conn.address, conn.tls))
     for conn in d.servers:
         out = d.out(conn)
         if b"GET /t" in out:
